@@ -299,7 +299,125 @@ theorem unwrap_is_needed (e : Entry) (he : e ∈ mapped) (hr : e.retryable = tru
   rw [sameText_msg, mapper_reg mapped msgs_distinct e he code kv]
   exact ⟨rfl, by simp only [retryableEq, hc, hr, Bool.and_self], by simp only [retryable, hc, hr, Bool.and_self]⟩
 
+/-! ## the handler as a whole: the local node's answer, whatever the request, reaches the caller unchanged -/
+
+/-- FACT extracted from chord/server_rpc.go: every handler is listed; EVERY error return of every handler has the
+handler's one form (WrapError / WrapErrorKV / raw) and returns the `err` of a call on `r.LocalNode` or of `r.Factory`
+(no handler answers with an error of its own making, e.g. a validation of request fields); and every handler that can
+fail returns the error of its `r.LocalNode` call. -/
+theorem facts_handlerReturns :
+    Gen.C14.handlerReturns.map (·.1) = Gen.C14.handlers.map (·.1) ∧
+    (∀ h ∈ Gen.C14.handlerReturns, ∀ r ∈ h.2,
+      r.1 = howOf Gen.C14.handlers h.1 ∧ (r.2.1 = "r.LocalNode" ∨ (r.2.1 = "r" ∧ r.2.2 = "Factory"))) ∧
+    (∀ h ∈ Gen.C14.handlerReturns, howOf Gen.C14.handlers h.1 ≠ "none" → ∃ r ∈ h.2, r.2.1 = "r.LocalNode") := by
+  decide
+
+/-- **C14 through the whole handler, for EVERY request.** Whatever the local node answers to the request
+(`loc`; the request — key, ttl, token, … — is universally quantified away: the handler adds nothing of its own):
+no error at the node = no error at the caller; a mapped error arrives as the same error, retryable at the caller
+exactly when it was at the origin; any error whose text is not a mapped message arrives non-retryable. -/
+theorem handler_transparent (how key : String) :
+    callerSees known mapped how key none = none ∧
+    (∀ e ∈ mapped, callerSees known mapped how key (some (.reg e)) = some (.reg e)) ∧
+    (∀ x : GoErr, x.msg ∉ mapped.map Entry.msg →
+      ∃ y, callerSees known mapped how key (some x) = some y ∧ retryable known y = false) := by
+  refine ⟨rfl, fun e he => ?_, fun x hx => ?_⟩
+  · have := identity_preserved how key e he
+    simpa [callerSees, serve, acrossRPC] using this
+  · exact ⟨acrossRPC known mapped how key x, by simp [callerSees, serve, acrossRPC], unknown_nonretryable how key x hx⟩
+
+/-- `durationGuard` accepts exactly the ttls of at least a second (truncation toward zero: 999 999 999 ns, 0 and every
+negative ttl are refused; 1.5 s is accepted) -/
+theorem ttlOk_iff (ttl : Int) : ttlOk ttl = true ↔ second ≤ ttl := by
+  unfold ttlOk second
+  rw [decide_eq_true_iff]
+  by_cases h : ttl < 0
+  · have h1 : ttl.tdiv 1000000000 ≤ 0 := by
+      have := Int.tdiv_nonpos_of_nonpos_of_neg (Int.le_of_lt h) (by decide : (-1000000000 : Int) < 0)
+      rw [Int.tdiv_neg] at this
+      omega
+    omega
+  · rw [Int.tdiv_eq_ediv_of_nonneg (by omega)]
+    omega
+
+def invalidTTL : Entry := ("ErrKVLeaseInvalidTTL", "chord/kv: lease ttl must be greater than a second", false)
+def leaseConflict : Entry := ("ErrKVLeaseConflict", "chord/kv: lease has not expired or was acquired by a different requester", false)
+def leaseExpired : Entry := ("ErrKVLeaseExpired", "chord/kv: lease has expired with the given token", false)
+
+theorem lease_entries :
+    errNamed known "ErrKVLeaseInvalidTTL" = .reg invalidTTL ∧ invalidTTL ∈ mapped ∧
+    errNamed known "ErrKVLeaseConflict" = .reg leaseConflict ∧ leaseConflict ∈ mapped ∧
+    errNamed known "ErrKVLeaseExpired" = .reg leaseExpired ∧ leaseExpired ∈ mapped := by
+  decide
+
+/-- every answer of the node to a lease request is a mapped registry error (or success) -/
+theorem leaseOutcome_mapped (op : LeaseOp) (ttl : Int) (st : LeaseSt) :
+    leaseOutcome known op ttl st = none ∨ ∃ e ∈ mapped, leaseOutcome known op ttl st = some (.reg e) := by
+  obtain ⟨h1, m1, h2, m2, h3, m3⟩ := lease_entries
+  unfold leaseOutcome
+  cases op <;> cases st <;> cases ttlOk ttl <;> simp only [h1, h2, h3, Bool.not_true, Bool.not_false] <;>
+    first
+    | exact Or.inl rfl
+    | exact Or.inl trivial
+    | exact Or.inr ⟨_, m1, rfl⟩
+    | exact Or.inr ⟨_, m2, rfl⟩
+    | exact Or.inr ⟨_, m3, rfl⟩
+
+/-- **C14 for lease requests, every ttl / lease state / lease name.** What the node answers to Acquire / Renew /
+Release — granted, ErrKVLeaseInvalidTTL, ErrKVLeaseConflict, ErrKVLeaseExpired — is what the remote caller gets: the
+same error, with the origin's retryability, and no error when the node granted the request. -/
+theorem lease_request_preserved (key : String) (op : LeaseOp) (ttl : Int) (st : LeaseSt) :
+    callerSees known mapped "WrapErrorKV" key (leaseOutcome known op ttl st) = leaseOutcome known op ttl st ∧
+    (∀ x, leaseOutcome known op ttl st = some x →
+      ∃ y, callerSees known mapped "WrapErrorKV" key (some x) = some y ∧ retryable known y = retryable known x) := by
+  rcases leaseOutcome_mapped op ttl st with h | ⟨e, he, h⟩
+  · rw [h]; exact ⟨rfl, fun x hx => by cases hx⟩
+  · rw [h]
+    have ht := (handler_transparent "WrapErrorKV" key).2.1 e he
+    refine ⟨ht, fun x hx => ?_⟩
+    cases hx
+    exact ⟨_, ht, rfl⟩
+
+/-- **a ttl below one second** (0, 500 ms, 999 999 999 ns, any negative ttl), whatever the lease's state and name: the
+node answers Acquire and Renew with ErrKVLeaseInvalidTTL, non-retryable — and so does the remote caller see it. -/
+theorem lease_invalid_ttl_preserved (key : String) (op : LeaseOp) (hop : op ≠ .release) (ttl : Int) (h : ttl < second)
+    (st : LeaseSt) :
+    leaseOutcome known op ttl st = some (.reg invalidTTL) ∧
+    retryable known (.reg invalidTTL) = false ∧
+    callerSees known mapped "WrapErrorKV" key (leaseOutcome known op ttl st) = some (.reg invalidTTL) := by
+  have hno : ttlOk ttl = false := by
+    cases hk : ttlOk ttl with
+    | false => rfl
+    | true => exact absurd ((ttlOk_iff ttl).mp hk) (by omega)
+  have ho : leaseOutcome known op ttl st = some (.reg invalidTTL) := by
+    unfold leaseOutcome
+    cases op with
+    | release => exact absurd rfl hop
+    | acquire => simp only [hno, Bool.not_false, if_true, lease_entries.1]
+    | renew => simp only [hno, Bool.not_false, if_true, lease_entries.1]
+  exact ⟨ho, by decide, by rw [ho]; exact (handler_transparent "WrapErrorKV" key).2.1 _ lease_entries.2.1⟩
+
+/-- REGRESSION WITNESS (a handler that answers a sub-second ttl itself, with a twirp error that only QUOTES the
+sentinel's text after the argument name): the caller gets an unmapped twirp error — not ErrKVLeaseInvalidTTL, `Is` no
+sentinel — although the node, asked directly, answers exactly ErrKVLeaseInvalidTTL. -/
+theorem own_answer_loses_identity (code : String) (kv : Option String) :
+    mapper mapped ⟨code, "ttl " ++ invalidTTL.msg, kv⟩ ≠ .reg invalidTTL ∧
+    (∀ e, (mapper mapped ⟨code, "ttl " ++ invalidTTL.msg, kv⟩).is e = false) := by
+  have hm : ("ttl " ++ invalidTTL.msg) ∉ mapped.map Entry.msg := by decide
+  rw [mapper_unknown mapped (Wire.mk code _ kv) hm]
+  exact ⟨(fun h => by cases h), fun _ => rfl⟩
+
 /-! ## non-vacuity (robust to additions to the registry) -/
+
+-- lease requests: refused ttls exist on both sides of zero, accepted ones too; every outcome occurs
+example : ttlOk 0 = false ∧ ttlOk 500000000 = false ∧ ttlOk 999999999 = false ∧ ttlOk (-5000000000) = false ∧
+    ttlOk 1000000000 = true ∧ ttlOk 1500000000 = true := by decide
+example : leaseOutcome known .acquire 500000000 .free = some (.reg invalidTTL) ∧
+    leaseOutcome known .acquire 60000000000 .heldOther = some (.reg leaseConflict) ∧
+    leaseOutcome known .renew 60000000000 .lapsed = some (.reg leaseExpired) ∧
+    leaseOutcome known .release 0 .heldOther = some (.reg leaseExpired) ∧
+    leaseOutcome known .renew 60000000000 .heldMine = none := by decide
+example : ∃ h ∈ Gen.C14.handlerReturns, h.1 = "Renew" ∧ h.2 = [("WrapErrorKV", "r.LocalNode", "Renew")] := by decide
 
 example : ∃ e ∈ registry, e.retryable = true := by decide
 example : ∃ e ∈ registry, e.retryable = false := by decide
